@@ -13,6 +13,7 @@ witnesses of known finding K-C16-straddle show that the full statement fails oth
 import MetricsVerif.Proofs.Reservoir
 import MetricsVerif.Proofs.ReservoirConc
 import MetricsVerif.Proofs.ReservoirPushers
+import MetricsVerif.Proofs.ReservoirIter
 import MetricsVerif.Proofs.SrcShapes
 import MetricsVerif.Generated.SourceFacts
 
@@ -541,5 +542,145 @@ theorem src_dogstatsd_sampled_wiring :
     ∧ Generated.dogstatsd_storage_histogram_body
       = "{ Arc::new(AtomicHistogram::new(self.histogram_sampling, self.histogram_reservoir_size)) }" :=
   ⟨rfl, rfl, rfl, rfl⟩
+
+/-! ## the `Drain` OBJECT, read in every way a closure can read it (round 6)
+
+`Model/Reservoir.DrainIt` is the iterator object (`idx`, `len`, `unsampled_len`), `next` its only own method
+(`src_drain_iterator_inventory`); `nth`, the collecting loops and the `by_ref()` adaptors are the trait's default
+methods, i.e. loops over `next`.  The harness runs random closure scripts on the real `Drain` (`reservoir consumes`),
+including calls made after `next()` has returned `None`, `nth` past the end and the by-value consumers `count`,
+`last`, `sum`, `fold`, `collect`, `for_each`, `skip`, `size_hint`. -/
+
+/-- **drain_iter_any_script.** However the closure reads the `Drain` — any sequence of `next()`, `nth(k)`, `len()`,
+    `sample_rate()` and exhausting loops, in any order, also after the iterator has returned `None` — the values it
+    is handed, in order, are a sublist of the values of `drain_sound`: every slot is handed out at most once, never
+    more than `capacity` values in total, and each value no more often than it was pushed since the previous drain. -/
+theorem drain_iter_any_script (cap : Nat) (ops : List Op) (script : List ItOp) :
+    let a := run (ASR.new cap) ops
+    let outs := (a.active.drainIt.runIt script).2
+    outs.Sublist a.consume.2.values
+    ∧ outs.length ≤ cap
+    ∧ ∀ x, outs.count x ≤ (pendOf ops).count x := by
+  intro a outs
+  have hs := (runIt_spec script a.active.drainIt (drainIt_wf _)).2.2
+  have hsub : outs.Sublist a.consume.2.values := by
+    rw [consume_out, ← drainIt_rest]
+    exact (List.sublist_append_left _ _).trans hs
+  have hd := drain_sound cap ops
+  refine ⟨hsub, ?_, fun x => ?_⟩
+  · have := hsub.length_le
+    have h2 : a.consume.2.values.length = min (pendOf ops).length cap := hd.2.1
+    omega
+  · exact Nat.le_trans (hsub.count_le x) (hd.1 x)
+
+/-- **drain_iter_fused.** `next()` never rewinds: once it has returned `None` the object is unchanged, and nothing a
+    closure does afterwards yields a value again. -/
+theorem drain_iter_fused (d : DrainIt) (w : d.WF) (h : d.next.2 = none) :
+    d.next.1 = d ∧ ∀ script, (d.runIt script).2 = [] := by
+  have hn : ¬ d.idx < d.len := by
+    intro hlt; rw [next_some d hlt] at h; simp at h
+  refine ⟨by rw [next_none d hn], fun script => ?_⟩
+  have hs := (runIt_spec script d w).2.2
+  rw [rest_nil d hn] at hs
+  have := List.eq_nil_of_sublist_nil hs
+  exact (List.append_eq_nil_iff.mp this).1
+
+/-- **drain_iter_collect_is_drain.** The plain loop over the object (`for v in drain`, `collect`, `fold`) yields
+    exactly the values of `Res.drain` — the list every theorem above speaks about —, `len()` announces exactly that
+    number beforehand, `sample_rate()` is the rate of `rate_exact`, and the loop leaves the iterator exhausted. -/
+theorem drain_iter_collect_is_drain (r : Res) :
+    r.drainIt.pullAll.2 = r.drain.values
+    ∧ r.drainIt.remaining = r.drain.values.length
+    ∧ r.drainIt.pullAll.1.next.2 = none
+    ∧ r.drainIt.rate = r.drain.rate := by
+  have w := drainIt_wf r
+  rw [pullAll_spec _ w, ← drainIt_rest, rest_length _ w]
+  refine ⟨rfl, rfl, ?_, rfl⟩
+  rw [next_none _ (by simp)]
+
+/-- **drain_iter_len_exact.** At every moment of every closure script `len()` is exactly the number of values the
+    object will still yield, and `sample_rate()` is still the rate of the whole drain (it does not depend on how
+    much has been read). -/
+theorem drain_iter_len_exact (r : Res) (script : List ItOp) :
+    let d := (r.drainIt.runIt script).1
+    d.remaining = d.pullAll.2.length ∧ d.rate = r.drain.rate := by
+  intro d
+  have h := runIt_spec script r.drainIt (drainIt_wf r)
+  refine ⟨?_, ?_⟩
+  · rw [pullAll_spec d h.1, rest_length d h.1]
+  · have hl : d.len = r.drainIt.len := h.2.1.len
+    have hu : d.unsampled = r.drainIt.unsampled := h.2.1.unsampled
+    simp only [DrainIt.rate, hl, hu]; rfl
+
+/-! ## the DogStatsD builder decides which histogram storage exists, and with which capacity (round 6) -/
+
+/-- **builder_last_setting_wins.** For every chain of builder calls the configuration that reaches
+    `AtomicHistogram::new` is the LAST `with_histogram_sampling` argument (or the default of the code, `false`) and
+    the LAST `with_histogram_reservoir_size` argument (or 1024) — unchanged, not rounded, not clamped. -/
+theorem builder_last_setting_wins (calls : List BOp) :
+    (Builder.configure calls).sampling = (lastSampling calls).getD false
+    ∧ (Builder.configure calls).size = (lastSize calls).getD 1024 :=
+  configure_fold calls Builder.default
+
+/-- **builder_sampled_histogram_has_configured_capacity.** When the last `with_histogram_sampling` call said `true`,
+    every histogram of the exporter is a sampling reservoir whose capacity is exactly the configured size (any size,
+    0 included), so after any history its drain yields `min(pushed, configured size)` values. -/
+theorem builder_sampled_histogram_has_configured_capacity (calls : List BOp)
+    (h : lastSampling calls = some true) (ops : List Op) :
+    (Builder.configure calls).histogram = .sampled (ASR.new ((lastSize calls).getD 1024))
+    ∧ (run (ASR.new ((lastSize calls).getD 1024)) ops).consume.2.values.length
+        = min (pendOf ops).length ((lastSize calls).getD 1024) := by
+  have hc := builder_last_setting_wins calls
+  refine ⟨?_, (drain_sound _ ops).2.1⟩
+  simp [Builder.histogram, hc.1, hc.2, h]
+
+/-- **builder_default_is_unsampled.** The CODE's default is the raw bucket: a builder on which
+    `with_histogram_sampling` was never called (or last called with `false`) creates no reservoir at all, whatever
+    size was configured.  (The setter's doc comment says "Defaults to `true`"; see REPORT.) -/
+theorem builder_default_is_unsampled (calls : List BOp) (h : (lastSampling calls).getD false = false) :
+    (Builder.configure calls).histogram = .raw := by
+  simp [Builder.histogram, (builder_last_setting_wins calls).1, h]
+
+/-- what `DrainIt` relies on: `Drain` has exactly these impl blocks; `impl Iterator for Drain` defines `next` and
+    nothing else (so `nth`, `count`, `last`, `fold`, `size_hint`, … are the trait's default loops over `next`, as in
+    the model — an overriding method added later breaks this fact), `ExactSizeIterator` only `len`; `next` reads slot
+    `idx` while `idx < len` and otherwise returns `None` WITHOUT touching `idx`; `len` is `len - idx`; and past the
+    verification override `fastrand` is one draw of the thread-local generator from `0..upper`, nothing else -/
+theorem src_drain_iterator_inventory :
+    Generated.reservoir_drain_impls
+      = ["Drain<'a>", "Drop for Drain<'a>", "ExactSizeIterator for Drain<'_>", "Iterator for Drain<'a>"]
+    ∧ Generated.reservoir_drain_iterator_fns = ["next"]
+    ∧ Generated.reservoir_drain_exactsize_fns = ["len"]
+    ∧ Generated.reservoir_drain_inherent_fns = ["sample_rate"]
+    ∧ Generated.reservoir_drain_next_body
+      = "{ if self.idx < self.len { let value = f64::from_bits(self.reservoir.values[self.idx].load(Relaxed)); self.idx += 1; Some(value) } else { None } }"
+    ∧ Generated.reservoir_drain_len_body = "{ self.len - self.idx }"
+    ∧ Generated.reservoir_fastrand_real_body
+      = "{ let rng = UNSAFE { &mut *rng.get() }; rng.random_range(0..upper) }" :=
+  ⟨rfl, rfl, rfl, rfl, rfl, rfl, rfl⟩
+
+/-- the path of the two sampling settings from the builder to `AtomicHistogram::new` (`Builder.configure`,
+    `Builder.histogram`): each setter assigns its argument unchanged and these are the only two assignments to the
+    fields; `build()` copies both fields into the `StateConfiguration` literal; `Default` has `false` and
+    `DEFAULT_HISTOGRAM_RESERVOIR_SIZE`; `State::new` hands both to `ClientSideAggregatedStorage::new`, which stores
+    them (and `histogram()` passes them on: `src_dogstatsd_sampled_wiring`) -/
+theorem src_dogstatsd_builder_wiring :
+    Generated.dogstatsd_builder_with_sampling_body = "{ self.histogram_sampling = histogram_sampling; self }"
+    ∧ Generated.dogstatsd_builder_with_size_body = "{ self.histogram_reservoir_size = reservoir_size; self }"
+    ∧ Generated.dogstatsd_builder_histogram_field_writes = 2
+    ∧ Generated.dogstatsd_builder_build_histogram_fields
+      = ["histogram_sampling: self.histogram_sampling", "histogram_reservoir_size: self.histogram_reservoir_size"]
+    ∧ Generated.dogstatsd_builder_default_histogram_fields
+      = ["histogram_sampling: false", "histogram_reservoir_size: DEFAULT_HISTOGRAM_RESERVOIR_SIZE"]
+    ∧ Generated.dogstatsd_state_new_body
+      = "{ State { registry: Registry::new(ClientSideAggregatedStorage::new( config.histogram_sampling, config.histogram_reservoir_size, )), config, } }"
+    ∧ Generated.dogstatsd_storage_new_body = "{ Self { histogram_sampling, histogram_reservoir_size } }" :=
+  ⟨rfl, rfl, rfl, rfl, rfl, rfl, rfl⟩
+
+/-! non-vacuity of the round-6 statements on concrete inputs -/
+example : ((Res.new 2 |>.push 7 0 |>.push 8 0 |>.push 9 1).drainIt.runIt [.next, .len, .nth 5, .next, .collect]).2 = [7] := by decide
+example : ((Res.new 3 |>.push 7 0 |>.push 8 0 |>.push 9 0).drainIt.runIt [.nth 1, .collect, .next]).2 = [8, 9] := by decide
+example : (Builder.configure [.size 4, .sampling true, .size 7]).histogram = .sampled (ASR.new 7) := by decide
+example : (Builder.configure [.size 4]).histogram = .raw := by decide
 
 end MetricsVerif.C16
